@@ -403,11 +403,18 @@ def sabotage_selftest(P, scratch, rl):
     def one(j):
         u, n, fn, pat, rep = j
         r = UnitRun(u, scratch, checks=False, sabotage=(fn, pat, rep), rlimit=rl, label="%s.sab%d" % (u, n))
-        r.go()
+        try:
+            r.go()
+        except (LostAnchor, TemplateError) as e:
+            r.lost = str(e)
         return j, r
     with cf.ThreadPoolExecutor(max_workers=8) as ex:
         for j, r in ex.map(one, jobs):
             u, n, fn, pat, rep = j
+            if getattr(r, "lost", None):
+                applied += 1
+                missed.append("%s line %d: %s: breakage makes the unit undecidable (%s)" % (u, n, fn, r.lost))
+                continue
             if r.em.sabotage_hits != 1:
                 missed.append("%s line %d: pattern did not apply to %s" % (u, n, fn))
                 applied += 1
@@ -416,6 +423,8 @@ def sabotage_selftest(P, scratch, rl):
             fr = r.fn.get(fn)
             if fr is not None and not fr[0]:
                 rejected += 1
+            elif fr is None:
+                missed.append("%s line %d: %s with /%s/ => %s: verus gave no result for the function (front-end error?)" % (u, n, fn, pat, rep))
             else:
                 missed.append("%s line %d: %s with /%s/ => %s still verifies" % (u, n, fn, pat, rep))
     return dict(applied=applied, rejected=rejected, missed=missed)
